@@ -14,6 +14,10 @@
 //     certhash sequences (multihash code x genuine/foreign digest x position) and demands that
 //     the dial completes only if the served hash is pinned and the server confirmed every
 //     certhash of the address.
+//   - TestTransportListenHistory (listenfail_test.go, both tiers) runs the real transport inside a
+//     bubble over an in-memory UDP stack and generates the history of Listen calls of one transport
+//     (successful, FAILING at generated instants, closes) around the rollovers; every live listener
+//     is observed by a reference QUIC/TLS handshake at every sampled instant.
 //   - TestWitness_* are the deterministic witnesses of the two defects this check found.
 package c18
 
@@ -84,7 +88,14 @@ func TestMain(m *testing.M) {
 			"plans: all confirmed incl. served (control), exactly one unconfirmed element first / in the middle / last among confirmed ones, served hash absent, only non-sha2-256 hashes, only unconfirmed hashes, free mix, no certhash. "+
 			"Oracle: what the listener serves (rawCerts[0]) and confirms (certhashes of its Noise handshake payload) is observed by a reference client made of quic-go + webtransport-go + noise, without code of the package; "+
 			"a dial may complete only if SHA-256(served leaf) is a sha2-256 hash of the address AND every certhash of the address, whatever its code and position, is in the confirmed list; control: if both hold the dial must complete. "+
-			"Non-trivial = at most one reason to refuse (control, exactly one unconfirmed element, or only the served hash missing); distinct = (plan, sequence of element kinds incl. code).",
+			"Non-trivial = at most one reason to refuse (control, exactly one unconfirmed element, or only the served hash missing); distinct = (plan, sequence of element kinds incl. code). "+
+			"TransportListenHistory (the REAL transport: webtransport.New + Listen, quicreuse, quic-go, http3 server, inside a bubble on virtual time over an in-memory UDP stack with a bind table): rapid draws a host key, a start instant as in Timeline and a HISTORY of 2..7 steps on ONE transport, "+
+			"every step = an action {Listen on a free address | Listen that is bound to FAIL (UDP address held by a foreign socket = EADDRINUSE, non-local IP = EADDRNOTAVAIL, the address of a live listener of this transport, /quic-v1 without /webtransport, a /certhash in the listen address, a tcp address) | close a live listener (also the last one) | a dialer learns the address a live listener advertises | nothing} "+
+			"followed by a clock move {to the next rotation instant + delta as in Timeline | a fraction of the way | a jump of up to 2.5 periods | stay}; the failing Listen comes before any listener exists (the first Listen of the transport), while 1..4 listeners are live, or after all were closed. "+
+			"Every live listener is sampled after every action, after every move and at every rotation instant passed: a reference client (plain quic-go, ALPN h3) performs a QUIC/TLS handshake and records rawCerts[0]; Listener.Multiaddr() is decoded here. "+
+			"Oracle per listener and instant: the handshake completes; NotBefore+skew <= t <= NotAfter-skew; lifetime <= 14d; served SHA-256 among the advertised certhashes; served bytes identical to a certificate of an undisturbed certManager with the same key (its current one; exactly at a rotation instant also its previous one); "+
+			"every address learnt from this listener in the current or the previous period verifies the served leaf (real verifyRawCerts on virtual time + membership recomputed). Nothing is demanded of the Listen calls themselves. "+
+			"Non-trivial = some Listen call failed and a listener of the same transport was afterwards observed through at least one rollover; distinct = (key kind, offset class, start class, step classes, rollovers).",
 		"crypto/x509 parsing and crypto/sha256 are trusted (used by the oracle)",
 		"the clock-skew allowance is the exported constant (1h); the 14-day bound is taken from the statement",
 		"the 'server certificate' of a chain is rawCerts[0] (what crypto/tls authenticates the handshake with); 'RSA' = RSA public key or any RSA (PKCS#1 v1.5 / PSS) signature",
@@ -92,6 +103,7 @@ func TestMain(m *testing.M) {
 			"the real handshake runs in the loopback cases only (TestE2EDialledHashes: 2000 generated dialled addresses in the quick tier, 40000 in the thorough tier; TestE2EFollowingPeriod: 4 cases in the quick tier with 1..3 rollovers of the running listener and addresses learnt before/after each, 12 + TestE2EPinning/StaleServer in the thorough tier)",
 		"loopback cases: real time is used for I/O only (a dial that runs into its 15 s deadline is skipped as inconclusive); the listeners of TestE2EDialledHashes sit on a mock clock pinned to the start of the test and are observed again at the end (a change makes the test inconclusive)",
 		"an address is promised to keep working only against the listener instance it was learnt from while that instance keeps running; a restart forgets the previous period's hash (lastConfig is nil after init) and is reported as a label, not as a violation",
+		"TransportListenHistory: the in-memory UDP stack (simnet.SimConn sockets behind a bind table, zero latency, no loss) and quic-go's client are trusted; quicreuse runs with DisableReuseport (its 30 s garbage-collection ticker would dominate the virtual-time jumps); the reference handshake must not consume virtual time (checked)",
 	)
 	hx.Main(m)
 }
